@@ -391,11 +391,14 @@ def run(chk, facts, info):
     chk.rule('C10-R5', 'the divisor of ALIGN is provably non-zero', min_instances=1)
     al = facts.func('asmallg.c', 'CodeALIGN')
     k = 0
-    for b, i, ln, n_ in al.nodes():
-        if n_[0] == 'b' and n_[1] in ('%', '/', '%=', '/=') and const_val(n_[3]) is None:
-            k += 1
-            ok, why = prove.nonzero(P, al, b, i, n_[3])
-            chk.ob('C10-R5', 'asmallg.c:CodeALIGN:%s' % show(n_[3]), ok, al.loc(ln), why[:300])
+    # the rounding may live in a helper of the unit that CodeALIGN() calls
+    cands = [al] + [g for g in {al.unit.funcs.get(callee_name(c) or '') for b, i, ln, c in al.calls()} if g is not None and g is not al and g.entry is not None and g.static]
+    for fn in cands:
+        for b, i, ln, n_ in fn.nodes():
+            if n_[0] == 'b' and n_[1] in ('%', '/', '%=', '/=') and const_val(n_[3]) is None:
+                k += 1
+                ok, why = prove.nonzero(P, fn, b, i, n_[3])
+                chk.ob('C10-R5', 'asmallg.c:%s:%s' % (fn.name, show(n_[3])), ok, fn.loc(ln), why[:300])
     if not k:
         raise AnalysisBroken('CodeALIGN: no division found')
 
